@@ -198,7 +198,7 @@ Proof. vm_compute. repeat split. Qed.
    member without omitempty is written as null, no shipped schema allows null: holds for the types without
    such a member, the others are listed (shape_null_members, with the members in Schema/ShapeShipped.v). *)
 From Verif Require Import Marshal.Typed Marshal.Wf Marshal.Env Schema.Shape Schema.ShapeProofs
-  Schema.ShapeShipped Schema.ShapeShippedProofs Gen.GoTypes.
+  Schema.ShapeShipped Schema.ShapeShippedDataProofs Schema.ShapeShippedProofs Gen.GoTypes.
 
 (* the boolean shape check means the relation *)
 Theorem shape_check_sound e fuel base s v : shape_ok e fuel base s v = true -> shaped e base s v.
